@@ -35,8 +35,14 @@ def init_text(init):
 USEQ = False       # unit["useq"]: enumeration values used as initial values are written with their type prefix
 
 
-def enumq(ty, v):
-    """the spelling of enumeration value v of type ty where it is USED (LEVEL2 is an alias of LEVEL)"""
+USEQ_ALIAS = False  # unit["useqalias"]: ... initial values of variables / structure elements with the prefix of an alias
+
+
+def enumq(ty, v, decl=False):
+    """the spelling of enumeration value v of type ty where it is USED (LEVEL2 is an alias of LEVEL);
+    decl: the default of a type declaration (never written with the alias)"""
+    if USEQ_ALIAS and not decl and ty in ("LEVEL", "LEVEL2"):
+        return "LEVEL2#" + v
     return ("LEVEL" if ty in ("LEVEL", "LEVEL2") else ty) + "#" + v if USEQ else v
 
 
@@ -52,9 +58,9 @@ def type_decl(o, t):
             if (i + 1) in t.get("qual", []):
                 o.w(n + "#")
             o.w(v, ("enumvalue", n, v, i))
-        o.w(") := ").w(enumq(n, t["def"]), ("enumdefault", n)).w(";\n")
+        o.w(") := ").w(enumq(n, t["def"], True), ("enumdefault", n)).w(";\n")
     elif k == "alias":
-        o.w(t["base"], ("aliasbase", n)).w(" := ").w(enumq(t["base"], t["def"]), ("aliasdefault", n)).w(";\n")
+        o.w(t["base"], ("aliasbase", n)).w(" := ").w(enumq(t["base"], t["def"], True), ("aliasdefault", n)).w(";\n")
     elif k == "struct":
         o.w("STRUCT\n")
         for i, e in enumerate(t["elems"]):
@@ -230,6 +236,8 @@ def decl_texts(unit):
     """one (name, text, sites) per top-level declaration, in the unit's order"""
     global USEQ
     USEQ = bool(unit.get("useq"))
+    global USEQ_ALIAS
+    USEQ_ALIAS = bool(unit.get("useqalias"))
     out = []
     for t in unit["types"]:
         o = Out()
